@@ -4,7 +4,7 @@ import copy
 from .. import formula as F
 from ..common import feature_labels
 from ..formula import from_json
-from ..modular import (KINDS, Q, decomposed, build_modular, feed, modular_texts, printer_for, mod_candidates, sub_names)
+from ..modular import (KINDS, Q, decomposed, occurrences_delay, build_modular, feed, modular_texts, printer_for, mod_candidates, sub_names)
 from ..monitors import build, exc_outcome
 from ..refsem import same
 from ..runner import Lane, PASS, FAIL, DISCARD
@@ -25,32 +25,6 @@ ASSUMPTIONS = [
     'dense-time values are compared as sample lists first and as step functions on the grid if the lists differ',
     'pastified hosts: outputs before the horizon are warm-up values and are not compared; the lane pastified_delayed concentrates on hosts in which the pastifier delays a named node',
 ]
-
-
-def occurrences_delay(f, target):
-    """For a pastified host f: set of (remaining horizon - own horizon) over all occurrences of sub-term target."""
-    out = set()
-    ht = F.horizon(target) or 0
-
-    def walk(g, R):
-        if g == target:
-            out.add(R - ht)
-        k = g[0]
-        kids = F.children(g)
-        if not kids:
-            return
-        op = F.op_of(g)
-        if op in ('eventually[]', 'always[]', 'until[]'):
-            for c in kids:
-                walk(c, R - g[3])
-        elif op in ('next', 's_next'):
-            walk(kids[0], R - 1)
-        else:
-            hg = F.horizon(g) or 0
-            for c in kids:
-                walk(c, hg)
-    walk(f, F.horizon(f) or 0)
-    return out
 
 
 def standalone(case, sub):
@@ -284,7 +258,9 @@ def edited_hosts(tier):
             rename = dict(zip(p['vars'], others * len(p['vars'])))
             target = others
             c['previous'] = {'formula': ren(from_json(p['formula'])), 'subs': [ren(from_json(s)) for s in p['subs']],
-                             'mode': mode, 'signal_was_requirement': v0}
+                             'mode': mode, 'signal_was_requirement': v0,
+                             # the name is declared through the API (as the README does for requirement names) or left to the parser
+                             'declare_was_req': draw(st.booleans())}
         return c
     return mk()
 
